@@ -285,3 +285,49 @@ pub(crate) mod verif_support {
         core::mem::forget(t)
     }
 }
+
+// Public (solver-build only) constructors/observers for harnesses that live in *other* crates
+// (the keyspace actor mount): they cannot reach OrSWotSet's private fields themselves.
+#[cfg(kani)]
+#[allow(dead_code)]
+pub mod verif_api {
+    use super::verif_support as vs;
+    use super::*;
+    pub use crate::vcoll_cfg::{KEYS, NODES};
+    #[cfg(not(feature = "verif_replay"))]
+    pub use crate::vcoll::{IdVec, RefSet as HashSet, Vec};
+    #[cfg(feature = "verif_replay")]
+    pub use std::collections::HashSet;
+    #[cfg(feature = "verif_replay")]
+    pub type IdVec = std::vec::Vec<u64>;
+
+    /// (0 nothing | 1 live | 2 tombstone, stamp)
+    pub fn view2(set: &OrSWotSet<2>, key: Key) -> (u8, u64) {
+        match vs::view_of(set, key) {
+            vs::View::Nothing => (0, 0),
+            vs::View::Live(t) => (1, t.as_u64()),
+            vs::View::Dead(t) => (2, t.as_u64()),
+        }
+    }
+
+    pub fn any_state2() -> OrSWotSet<2> {
+        vs::any_state::<2>()
+    }
+
+    pub fn inv2(set: &OrSWotSet<2>) -> bool {
+        vs::inv(set)
+    }
+
+    pub fn any_ts() -> HLCTimestamp {
+        vs::any_ts()
+    }
+
+    pub fn any_key() -> Key {
+        vs::any_key()
+    }
+
+    /// the purge cut-off the set holds for `node` (None: nothing seen from it)
+    pub fn cutoff2(set: &OrSWotSet<2>, node: u8) -> Option<HLCTimestamp> {
+        vs::spec_cutoff(&vs::max_of(set, node), node)
+    }
+}
